@@ -135,7 +135,7 @@ def rule_fwd_array(rows, prop):
     exempt = tbl["array_exempt"]
     findings, instances, samples = [], 0, []
     for r in rows:
-        if r.get("lambda"):
+        if "fn" not in r or r.get("lambda"):
             continue
         names = [p["name"] for p in r["params"]]
         if "context" not in names:
